@@ -43,6 +43,35 @@ fn decode<'tcx>(tcx: TyCtxt<'tcx>, t: Ty<'tcx>, bytes: &[u8]) -> J {
             return J::Arr(bytes.chunks(w).map(|c| decode(tcx, *elem, c)).collect());
         }
     }
+    // a struct whose fields are all integers / bools (e.g. a `RangeInclusive<u8>` constant): decode by layout
+    if let ty::Adt(adt, args) = t.kind() {
+        if adt.is_struct() {
+            let env = ty::TypingEnv::fully_monomorphized();
+            if let Ok(layout) = tcx.layout_of(env.as_query_input(t)) {
+                let mut fields: Vec<(String, J)> = vec![];
+                let mut ok = true;
+                for (i, f) in adt.non_enum_variant().fields.iter().enumerate() {
+                    let fty = f.ty(tcx, args);
+                    let off = layout.fields.offset(i).bytes() as usize;
+                    match int_width(fty) {
+                        Some((w, _)) if off + w <= bytes.len() => {
+                            fields.push((f.name.to_string(), decode(tcx, fty, &bytes[off..off + w])));
+                        }
+                        _ => {
+                            ok = false;
+                            break;
+                        }
+                    }
+                }
+                if ok && !fields.is_empty() {
+                    return J::Obj(vec![(
+                        "fields".to_string(),
+                        J::Obj(fields),
+                    )]);
+                }
+            }
+        }
+    }
     J::Str(format!("bytes:{}", bytes.iter().map(|b| format!("{:02x}", b)).collect::<String>()))
 }
 
